@@ -31,13 +31,13 @@ TEXT.update({
     note="Trusted: TLC, recorder. The specification's contribution is equality of behaviours; the quantifier is carried by the corpus (see evidence).",
     design_ref="4/C14"),
  "C15": dict(
-    technique="TLA+ definition of nearest-better clustering (NBC.tla) checked by TLC; exhaustive lattice tables replayed on NearestBetterClustering with metamorphic images; NBCBatch.tla evaluated by TLC as the exact oracle for generated populations of 8-60 individuals",
+    technique="TLA+ definition of nearest-better clustering (NBC.tla) checked by TLC; exhaustive lattice tables replayed on NearestBetterClustering with metamorphic images; NBCBatch.tla evaluated by TLC as the exact oracle for generated populations of 8-128 individuals",
     text="NBC.tla is the definition in integers (ties, truncation as a relation, strictly-better attachment, threshold test exact); TLC checks best-is-seed, scale/translate/mirror invariance and factor monotonicity on every bounded population and writes every case with its acceptable results; the replay runs the real class on each case under several embeddings (dimension, axis, exact scales incl. spacing 2^-30 around 1.0 and 2^20), permuted input orders and both directions, comparing seeds and distances.",
-    note="Trusted: TLC, exact power-of-two concretisation. Exhaustive part: population size bounded (quick 4, thorough 5; 2-D grid 3-4 points). Larger populations (8-60, on a line embedded along Pythagorean directions so that every distance is exact) are generated, not enumerated; their expected seeds come from TLC evaluating NBCBatch.tla.",
+    note="Trusted: TLC, exact power-of-two concretisation. Exhaustive part: population size bounded (quick 4, thorough 5; 2-D grid 3-4 points). Larger populations (8-60, and 64-128 with few populous clusters, on a line embedded along Pythagorean directions so that every distance is exact) are generated, not enumerated; their expected seeds come from TLC evaluating NBCBatch.tla.",
     design_ref="4/C15"),
  "C16": dict(
     technique="TLA+ state machine of wrapper stacks (Problem.tla) model-checked by TLC; every (stack, call sequence) of the model replayed on real wrapper objects",
-    text="TLC explores all wrapper stacks up to depth 3 (thorough 4) over {counting, stats, precision, cutoff(N)} and all call sequences, checks transparency, count law, cutoff prefix / hard budget, first-hit and stickiness as invariants / action properties, and writes every maximal behaviour; each is replayed call by call on real EvalCountingProblem / EvalCutoffProblem / PrecisionCutoffProblem / StatsGatheringProblem stacks in both directions with the projected state compared after every call.",
+    text="TLC explores all wrapper stacks up to depth 3 (thorough 4) over {counting, stats, precision, cutoff(N)} and all call sequences - each call entering the stack at the top or, for stacks of up to two layers, directly at an inner layer (a shared inner wrapper) -, checks transparency, count law, cutoff prefix / hard budget / own budget, first-hit and stickiness as invariants / action properties, and writes every maximal behaviour; each is replayed call by call on real EvalCountingProblem / EvalCutoffProblem / PrecisionCutoffProblem / StatsGatheringProblem stacks in both directions with the projected state compared after every call.",
     note="Trusted: TLC, the replay's value concretisation. Depth and call-sequence length are bounded (see evidence).",
     design_ref="4/C16"),
  "C01": _t("Every objective call, every individual of every recorded generation, every sprout seed of every run of the corpus carries the harness-computed atom inbox; clauses C01_EvalInBox / C01_StoredInBox / C01_SeedInBox are evaluated by TLC on every event of every trace. Corpus spans all engines, 6 box classes (incl. (-0.1,0.2), 1e-9, 1e9), dims 2-4.",
